@@ -124,6 +124,24 @@ func (fc *FuncCtx) resolveType(te TypeExpr, pkg *types.Package) types.Type {
 	case "map":
 		return types.NewMap(fc.resolveType(*te.Key, pkg), fc.resolveType(*te.Elem, pkg))
 	}
+	if len(te.Args) > 0 {
+		base := te
+		base.Args = nil
+		gt := fc.resolveType(base, pkg)
+		named, ok := gt.(*types.Named)
+		if !ok {
+			specFail("%s is not a generic type", te.Name)
+		}
+		var targs []types.Type
+		for _, a := range te.Args {
+			targs = append(targs, fc.resolveType(a, pkg))
+		}
+		inst, err := types.Instantiate(nil, named.Origin(), targs, false)
+		if err != nil {
+			specFail("cannot instantiate %s: %v", te.Name, err)
+		}
+		return inst
+	}
 	name := te.Name
 	if k := strings.Index(name, "."); k >= 0 {
 		pn, tn := name[:k], name[k+1:]
